@@ -3,7 +3,7 @@ Driver for C10.  One request per line, `k=v` fields separated by single spaces:
   op=ctor  T=<xsd type> V=<10|11|none> S=<code points, comma separated, `_` = empty>
   op=valid T=<xsd type> S=<…>
   op=canon T=<integer type|decimal|boolean> (I=<int> | S=<lexical form> | B=<0|1>)
-  op=greg K=<time|gDay|gMonth|gMonthDay> S=<cps>   op=lang S=<cps>
+  op=greg K=<time|gDay|gMonth|gMonthDay> S=<cps>   op=lang S=<cps>   op=name K=<NCName|Name|NMTOKEN|QName> S=<cps>
   op=tz S=<timezone text>   op=tzcanon M=<minutes>   op=dur K=<duration|yearMonthDuration|dayTimeDuration> S=<cps>
   op=hexenc|b64enc Y=<octets, comma separated, `_` = empty>
   op=hex2b64|b642hex S=<stored value>
@@ -15,12 +15,15 @@ flags: `w` the string contains a character that Python treats as white space but
        `d` (op=cast, double -> string) the double lies where string_value and the F&O canonical form differ (F10b)
        `r` (op=cast, double operand) the model `pyRepr` of CPython's repr(float) does not reproduce the given repr
        `o` (op=cast, integer -> double) the integer is too large for float(int) (F10o)
+       `n` (op=name) some character of the collapsed string is classified differently by the code's `\w`-based
+           tables (generated) and by the XML 1.0 (5th ed.) name productions (F10n)
 -/
 import EPV.Proto
 import EPV.Model.Lexical
 import EPV.Spec.XSDLexical
 import EPV.Lemmas.LexicalRepr
 import EPV.Lemmas.LexicalGreg
+import EPV.Gen.C10Tables
 open EPV.Proto EPV
 
 def parseCPs (s : String) : Option (List Char) :=
@@ -328,6 +331,35 @@ def answer (line : String) : String :=
       let c := XSD.wsCollapse s
       let sp := if XSD.languageLex c then "ok:" ++ showCPs c else "ERR:V"
       out m m sp ""
+    | none => "bad-string"
+  else if op == "name" && field fs "K" == "QName" then
+    match parseCPs (field fs "S") with
+    | some s =>
+      let c := XSD.wsCollapse s
+      let m := if Lex.matchQName Gen.C10.qnamePFirst Gen.C10.qnamePLater Gen.C10.qnameFirst Gen.C10.qnameLater (Lex.pyStrip s)
+        then "ok" else "ERR:V"
+      let sp := if XSD.qNameLex c then "ok" else "ERR:V"
+      let alike := c.all fun x => (Lex.inRanges Gen.C10.qnameFirst x == XSD.inSet XSD.nameStartNoColon x) &&
+        (Lex.inRanges Gen.C10.qnameLater x == XSD.inSet XSD.nameCharNoColon x)
+      out m m sp (flags s ++ (if alike then "" else "n"))
+    | none => "bad-string"
+  else if op == "name" then
+    match parseCPs (field fs "S") with
+    | some s =>
+      let kname := field fs "K"
+      let (first, later, sf, sl, lex) :=
+        if kname == "Name" then (Gen.C10.nameFirst, Gen.C10.nameLater, XSD.nameStartNoColon ++ XSD.colon,
+          XSD.nameCharNoColon ++ XSD.colon, XSD.nameLex)
+        else if kname == "NMTOKEN" then (Gen.C10.nmtokenFirst, Gen.C10.nmtokenLater, XSD.nameCharNoColon ++ XSD.colon,
+          XSD.nameCharNoColon ++ XSD.colon, XSD.nmtokenLex)
+        else (Gen.C10.ncnameFirst, Gen.C10.ncnameLater, XSD.nameStartNoColon, XSD.nameCharNoColon, XSD.ncNameLex)
+      let m := match Lex.nameCtor first later s with | some v => "ok:" ++ showCPs v | none => "ERR:V"
+      let c := XSD.wsCollapse s
+      let sp := if lex c then "ok:" ++ showCPs c else "ERR:V"
+      let alike : Bool := match c with
+        | [] => true
+        | x :: r => (Lex.inRanges first x == XSD.inSet sf x) && r.all fun y => Lex.inRanges later y == XSD.inSet sl y
+      out m m sp (flags s ++ (if alike then "" else "n"))
     | none => "bad-string"
   else if op == "greg" then
     match parseCPs (field fs "S") with
